@@ -75,22 +75,22 @@ async fn connect(payload: &Payload, opts: StreamOpts, ws: bool) -> Result<Transp
     }
 }
 
-async fn pull_check<C: AsyncSvsClient>(case: &Case, client: &C, payload: &Payload, api: u32) {
+async fn pull_check<C: AsyncSvsClient>(case: &Case, client: &C, payload: &Payload, api: u32, lossy: bool) {
     let logical = payload.logical();
     let fails = payload.fails();
     match (payload, api) {
         (Payload::Value(rec), 0 | 1) => {
             let r = repe::value_stream::pull_value_async::<Record, _>(client, "res").await;
-            case.check(matches!(&r, Ok(v) if v == rec), "pulled-value-differs", || format!("pull_value_async returned {:?}", r.as_ref().map(|v| v.name.clone()).map_err(|e| e.to_string())));
+            case.check(matches!(&r, Ok(v) if v == rec) || (lossy && r.is_err()), "pulled-value-differs", || format!("pull_value_async returned {:?}", r.as_ref().map(|v| v.name.clone()).map_err(|e| e.to_string())));
         }
         (Payload::Typed(v), 0 | 1) => {
             let r = repe::value_stream::pull_typed_slice_async::<f64, _>(client, "res").await;
-            case.check(matches!(&r, Ok(g) if g.iter().map(|x| x.to_bits()).eq(v.iter().map(|x| x.to_bits()))), "pulled-value-differs", || format!("pull_typed_slice_async returned {:?}", r.as_ref().map(|g| g.len()).map_err(|e| e.to_string())));
+            case.check(matches!(&r, Ok(g) if g.iter().map(|x| x.to_bits()).eq(v.iter().map(|x| x.to_bits()))) || (lossy && r.is_err()), "pulled-value-differs", || format!("pull_typed_slice_async returned {:?}", r.as_ref().map(|g| g.len()).map_err(|e| e.to_string())));
         }
         (Payload::Complex(v), 0 | 1) => {
             let r = repe::value_stream::pull_complex_slice_async::<f32, _>(client, "res").await;
             case.check(
-                matches!(&r, Ok(g) if g.len() == v.len() && g.iter().zip(v.iter()).all(|(a, b)| a.re.to_bits() == b.re.to_bits() && a.im.to_bits() == b.im.to_bits())),
+                matches!(&r, Ok(g) if g.len() == v.len() && g.iter().zip(v.iter()).all(|(a, b)| a.re.to_bits() == b.re.to_bits() && a.im.to_bits() == b.im.to_bits())) || (lossy && r.is_err()),
                 "pulled-value-differs",
                 || format!("pull_complex_slice_async returned {:?}", r.as_ref().map(|g| g.len()).map_err(|e| e.to_string())),
             );
@@ -121,6 +121,8 @@ async fn pull_check<C: AsyncSvsClient>(case: &Case, client: &C, payload: &Payloa
             .await;
             if fails {
                 case.check(r.is_err(), "truncated-stream-accepted", || format!("pull_consume_async returned Ok({} bytes) although the producer failed", r.as_ref().map(|v| v.len()).unwrap_or(0)));
+            } else if lossy {
+                case.check(!matches!(&r, Ok(v) if *v != logical), "truncated-stream-accepted", || format!("the connection was lost in mid-transfer and pull_consume_async returned Ok({} bytes) of {}", r.as_ref().map(|v| v.len()).unwrap_or(0), logical.len()));
             } else {
                 case.check(matches!(&r, Ok(v) if *v == logical), "pulled-bytes-differ", || format!("pull_consume_async returned {:?}, want {} bytes", r.as_ref().map(|v| v.len()).map_err(|e| e.to_string()), logical.len()));
             }
@@ -129,6 +131,8 @@ async fn pull_check<C: AsyncSvsClient>(case: &Case, client: &C, payload: &Payloa
             let r = repe::value_stream::pull_to_vec_async(client, "res").await;
             if fails {
                 case.check(r.is_err(), "truncated-stream-accepted", || format!("pull_to_vec_async returned Ok({} bytes) although the producer failed", r.as_ref().map(|v| v.len()).unwrap_or(0)));
+            } else if lossy {
+                case.check(!matches!(&r, Ok(v) if *v != logical), "truncated-stream-accepted", || format!("the connection was lost in mid-transfer and pull_to_vec_async returned Ok({} bytes) of {}", r.as_ref().map(|v| v.len()).unwrap_or(0), logical.len()));
             } else {
                 case.check(matches!(&r, Ok(v) if *v == logical), "pulled-bytes-differ", || format!("pull_to_vec_async returned {:?}, want {} bytes", r.as_ref().map(|v| v.len()).map_err(|e| e.to_string()), logical.len()));
             }
@@ -143,21 +147,36 @@ fn c09_async_pull(case: &Case) {
     let payload = draw_payload(chunk, true);
     let api = simkernel::choose(3);
     let ws = simkernel::choose(2) == 0;
+    // sometimes the connection is reset in mid-transfer: the pull may fail, but must never
+    // return fewer bytes than the producer emitted as a success
+    let conn_loss_us = if simkernel::choose(4) == 0 { Some(pick(&[20u64, 300, 2_000, 20_000, 200_000])) } else { None };
     case.sample(json!({"transport": if ws {"WebSocketClient<-WebSocketServer"} else {"AsyncClient<-Server"}, "producer": payload.kind(), "logical_len": payload.logical().len(),
-        "chunk_bytes": chunk, "depth": opts.session_depth, "compression": format!("{:?}", opts.compression), "producer_fails": payload.fails(), "api": api}));
+        "chunk_bytes": chunk, "depth": opts.session_depth, "compression": format!("{:?}", opts.compression), "producer_fails": payload.fails(), "api": api, "connection_reset_after_us": conn_loss_us}));
     let case = case.clone();
     aio::run(&case.clone(), 3_600, async move {
-        match connect(&payload, opts, ws).await {
+        let t = connect(&payload, opts, ws).await;
+        let lossy = conn_loss_us.is_some();
+        if let Some(us) = conn_loss_us {
+            let conn = net::connections().last().cloned();
+            tokio::spawn(async move {
+                tokio::time::sleep(Duration::from_micros(us)).await;
+                if let Some(c) = conn {
+                    simkernel::count("fault.connection_lost_during_pull");
+                    net::reset_conn(&c);
+                }
+            });
+        }
+        match t {
             Err(e) => case.harness_error(format!("setup failed: {e}")),
             Ok(Transport::Tcp(client, server)) => {
-                pull_check(&case, &client, &payload, api).await;
+                pull_check(&case, &client, &payload, api, lossy).await;
                 case.check(client.verif_pending_len() == 0, "pending-residue", || format!("{} pending after pull", client.verif_pending_len()));
                 drop(client);
                 net::shutdown_all();
                 let _ = server;
             }
             Ok(Transport::Ws(client, server)) => {
-                pull_check(&case, &client, &payload, api).await;
+                pull_check(&case, &client, &payload, api, lossy).await;
                 case.check(client.verif_pending_len() == 0, "pending-residue", || format!("{} pending after pull", client.verif_pending_len()));
                 drop(client);
                 server.abort();
